@@ -41,6 +41,10 @@ type aoCase struct {
 		Via    string `json:"via"`
 		Origin string `json:"origin"`
 	} `json:"origin"`
+	Alts []struct {
+		Name string  `json:"name"`
+		Keys []aoKey `json:"keys"`
+	} `json:"alts"` // a choice root `@x | @y`: the listing of each alternative
 	Warm []string `json:"warm,omitempty"` // call prefix (SchemaApi_orders) after which the assertions are repeated
 }
 
@@ -49,6 +53,9 @@ var aoCodes = map[string]int{"missing": 1302, "nonobject": 704, "cycle": 703, "d
 func aoText(d aoDef, keyVal map[string]string) string {
 	if d.Kind == "scalar" {
 		return `"str"`
+	}
+	if d.Kind == "choice" {
+		return "@" + d.AllOf[0] + " | @" + d.AllOf[1]
 	}
 	var rules []string
 	if len(d.AllOf) == 1 {
@@ -116,6 +123,9 @@ func aoClass(cs aoCase, what string) string {
 	r := append([]string{}, cs.Refusals...)
 	sort.Strings(r)
 	shape := fmt.Sprintf("root-allOf-%d", len(cs.Root.AllOf))
+	if cs.Root.Kind == "choice" {
+		shape = "root-choice"
+	}
 	aps := map[string]bool{}
 	for _, t := range cs.Types {
 		if t.D.AP != "absent" {
@@ -191,6 +201,9 @@ func aoEvalAfter(cs aoCase, warm []string) []core.Finding {
 			return []core.Finding{{Class: aoClass(cs, fmt.Sprintf("refused-valid-code-%d", errCode(err))), What: fmt.Sprintf("valid inheritance refused: %v\n%s", firstLineOf(err), aoDump(cs))}}
 		}
 		var fs []core.Finding
+		if cs.Root.Kind == "choice" {
+			return aoChoiceListing(cs, root)
+		}
 		var want []string
 		for _, k := range cs.Keys {
 			want = append(want, k.K)
@@ -277,13 +290,57 @@ func aoEvalAfter(cs aoCase, warm []string) []core.Finding {
 	})
 }
 
+// aoChoiceListing: the root is `@x | @y`; Dereference lists every alternative that is an object with own + inherited keys.
+func aoChoiceListing(cs aoCase, root *jschema.JSchema) (fs []core.Finding) {
+	defer func() {
+		if r := recover(); r != nil {
+			fs = append(fs, core.Finding{Class: "allof:dereference-panic", What: fmt.Sprintf("Dereference panicked: %v\n%s", r, aoDump(cs))})
+		}
+	}()
+	infos := openapi.Dereference(root)
+	var objs []openapi.ObjectInformer
+	for _, in := range infos {
+		if oi, ok := in.(openapi.ObjectInformer); ok {
+			objs = append(objs, oi)
+		}
+	}
+	var wantObjs [][]aoKey
+	for _, a := range cs.Alts {
+		for _, t := range cs.Types {
+			if t.Name == a.Name && t.D.Kind == "object" {
+				wantObjs = append(wantObjs, a.Keys)
+			}
+		}
+	}
+	if len(objs) != len(wantObjs) {
+		return []core.Finding{{Class: aoClass(cs, "openapi-alternatives"), What: fmt.Sprintf("Dereference reports %d objects for %d object alternatives\n%s", len(objs), len(wantObjs), aoDump(cs))}}
+	}
+	for i, oi := range objs {
+		var got, want []string
+		for _, p := range oi.PropertiesInfos() {
+			got = append(got, fmt.Sprintf("%s/%v", p.Key(), p.Optional()))
+		}
+		for _, k := range wantObjs[i] {
+			want = append(want, fmt.Sprintf("%s/%v", k.K, k.Opt))
+		}
+		if strings.Join(got, ",") != strings.Join(want, ",") {
+			fs = append(fs, core.Finding{Class: aoClass(cs, "openapi-keys"), What: fmt.Sprintf("alternative #%d: OpenAPI property listing %v, own + inherited is %v\n%s", i, got, want, aoDump(cs))})
+		}
+	}
+	return fs
+}
+
 func runC07(c *core.Ctx) error {
 	type cf struct{ name, body string }
+	mkc := func(n int, keys string, ml int, aps string, nest string, choice string) string {
+		return fmt.Sprintf("SPECIFICATION Spec\nCONSTANTS\n  N = %d\n  KeySet = %s\n  MaxList = %d\n  APs = %s\n  Nest = %s\n  RootChoice = %s\nINVARIANTS MergeHasNoDuplicateKeys MergeStable NoListNoChange NestedHeirGains Emit\nCHECK_DEADLOCK FALSE\n", n, keys, ml, aps, nest, choice)
+	}
 	mk := func(n int, keys string, ml int, aps string, nest string) string {
-		return fmt.Sprintf("SPECIFICATION Spec\nCONSTANTS\n  N = %d\n  KeySet = %s\n  MaxList = %d\n  APs = %s\n  Nest = %s\nINVARIANTS MergeHasNoDuplicateKeys MergeStable NoListNoChange NestedHeirGains Emit\nCHECK_DEADLOCK FALSE\n", n, keys, ml, aps, nest)
+		return mkc(n, keys, ml, aps, nest, "FALSE")
 	}
 	cfgs := []cf{{"AllOf_2.cfg", mk(2, `{"k1", "k2"}`, 2, `{"absent", "false", "true"}`, "FALSE")},
-		{"AllOf_2nest.cfg", mk(2, `{"k1", "k2"}`, 1, `{"absent"}`, "TRUE")}}
+		{"AllOf_2nest.cfg", mk(2, `{"k1", "k2"}`, 1, `{"absent"}`, "TRUE")},
+		{"AllOf_2choice.cfg", mkc(2, `{"k1", "k2"}`, 1, `{"absent"}`, "FALSE", "TRUE")}}
 	if c.Thorough() {
 		cfgs = append(cfgs, cf{"AllOf_2ap.cfg", mk(2, `{"k1", "k2"}`, 2, `{"absent", "false", "string", "any", "true"}`, "FALSE")},
 			cf{"AllOf_3.cfg", mk(3, `{"k1", "k2", "k3"}`, 1, `{"absent", "false"}`, "FALSE")},
